@@ -4,6 +4,7 @@ import (
 	"context"
 	"encoding/json"
 	"fmt"
+	"regexp"
 	"strings"
 	"testing"
 
@@ -24,6 +25,8 @@ type c13Case struct {
 	// CC: compile for the C++ target with typed symbols (lists of typed references are expanded
 	// with list-building commands there); only grammar.Parser.Rules is read.
 	CC bool `json:"cc,omitempty"`
+	// OptNames: optional references to nonterminals are written `Xopt` instead of `X?`.
+	OptNames bool `json:"optnames,omitempty"`
 }
 
 // egEnrich adds sets, lookahead markers, state markers, mid-rule commands, aliases, recursion and
@@ -150,8 +153,17 @@ func c13Gen(t *rapid.T) c13Case {
 		// a user nonterminal whose name looks like an extracted list nonterminal
 		g.NTs = append(g.NTs, &egNT{Name: "B_list", Alts: []*egAlt{{Parts: []*egPart{{K: "t", Sym: 1}}}}})
 	}
-	return c13Case{G: g, CC: rapid.IntRange(0, 4).Draw(t, "cc") == 0}
+	if rapid.IntRange(0, 3).Draw(t, "firstRenamed") == 0 {
+		// The first nonterminal gets a name behind every extracted one (`B_list`, `Copt` < `Zz`)
+		// and refers to itself, so references to nonterminal #0 have to survive the reordering.
+		g.NTs[0].Name = "Zz"
+		g.T++
+		g.NTs[0].Alts = append(g.NTs[0].Alts, &egAlt{Parts: []*egPart{{K: "t", Sym: g.T - 1}, {K: "n", Sym: 0}, {K: "t", Sym: g.T - 1}}})
+	}
+	return c13Case{G: g, CC: rapid.IntRange(0, 4).Draw(t, "cc") == 0, OptNames: rapid.IntRange(0, 3).Draw(t, "optNames") == 0}
 }
+
+var c13OptRef = regexp.MustCompile(` ([A-Z][a-z]?)\?`)
 
 // egDenote computes Lang<=L of every nonterminal of the spec. term maps a spec terminal to its
 // symbol number; universe lists all terminal symbol numbers (for complements).
@@ -251,6 +263,10 @@ func c13Check(c c13Case, r *ev.Recorder) *Failure {
 		src = g.render("g", map[string]string{"namespace": `"g"`, "__termType": " {int}", "__ntType": " {int}"}, true, "", nil)
 		src = strings.Replace(src, "package = \"scratch/g\"\n", "", 1)
 		src = strings.Replace(src, "language g(go);", "language g(cc);", 1)
+	}
+	if c.OptNames {
+		// `X?` written as `Xopt` (the nonterminal is instantiated on demand by the compiler)
+		src = c13OptRef.ReplaceAllString(src, " ${1}opt")
 	}
 	out, err := compiler.Compile(context.Background(), "g.tm", src, compiler.Params{CheckOnly: false})
 	r.Eval(1)
@@ -371,7 +387,7 @@ func c13Check(c c13Case, r *ev.Recorder) *Failure {
 func TestC13(t *testing.T) {
 	p := &prop[c13Case]{
 		ID:   "C13",
-		Rule: "grammars in extended notation (optional parts on references and groups, nested choices up to depth 3, + and * lists over references/sequences/choices with and without separators, nullable elements, lists inside lists), enriched with set(a|b) and set(~(a|eoi)) references, (?= X) and (?= !X) lookahead markers, state markers, mid-rule commands, aliases, arrows, recursion through any nonterminal, the same list/optional expression repeated in several places (extracted nonterminal reuse) and user nonterminals named like extracted ones; rendered to .tm and compiled with compiler.Compile; grammar.Parser.Rules is read even when table construction reports conflicts. For every input nonterminal the set of terminal strings of length <= L (L=5 for <=3 terminals, else 4) denoted by the extended notation (sets = choice of their terminals, markers/lookaheads/commands = empty string) must equal the set derived by the plain rules (least fixpoint enumeration on both sides). Non-trivial: grammar with a list or nesting depth >= 2 and at least 3 strings in the bounded language; distinct by spec JSON.",
+		Rule: "(a quarter of the cases: the first nonterminal renamed `Zz` with a self-referring alternative, so that extracted nonterminals are ordered in front of it; a quarter: optional nonterminal references written `Xopt` instead of `X?`) grammars in extended notation (optional parts on references and groups, nested choices up to depth 3, + and * lists over references/sequences/choices with and without separators, nullable elements, lists inside lists), enriched with set(a|b) and set(~(a|eoi)) references, (?= X) and (?= !X) lookahead markers, state markers, mid-rule commands, aliases, arrows, recursion through any nonterminal, the same list/optional expression repeated in several places (extracted nonterminal reuse) and user nonterminals named like extracted ones; rendered to .tm and compiled with compiler.Compile; grammar.Parser.Rules is read even when table construction reports conflicts. For every input nonterminal the set of terminal strings of length <= L (L=5 for <=3 terminals, else 4) denoted by the extended notation (sets = choice of their terminals, markers/lookaheads/commands = empty string) must equal the set derived by the plain rules (least fixpoint enumeration on both sides). Non-trivial: grammar with a list or nesting depth >= 2 and at least 3 strings in the bounded language; distinct by spec JSON.",
 		Assume: []string{"right-recursive lists cannot be written in .tm syntax and are not generated", "exact up to the length bound L only"},
 		Quick: 9000, Thorough: 120000,
 		Gen:   c13Gen,
